@@ -19,7 +19,7 @@ LEVEL_NOTE = "trusted: the invariant's own recomputation (props/monitors.py, 60 
 
 
 def budget(tier):
-    return {"quick": {"runs": 6000, "wall": 150}, "thorough": {"runs": 400000, "wall": 1500}}[tier]
+    return {"quick": {"runs": 6000, "wall": 150}, "thorough": {"runs": 72000, "wall": 900}}[tier]
 
 
 def _setup(ex, case):
